@@ -8,6 +8,7 @@ import (
 	"go/ast"
 	"go/token"
 	"go/types"
+	"regexp"
 	"sort"
 	"strings"
 )
@@ -24,6 +25,86 @@ type mbTwinCtx struct {
 	kmap   map[string]string
 	obs    []Obligation
 	live   map[string]map[string]bool // tag -> impl name -> produced by the engine
+	// pairing of library-internal names (functions, unexported methods and
+	// fields) between the twins, built up by same()
+	pairVM, pairIn map[string]string
+	declVM, declIn map[string]bool
+}
+
+var mbTokRe = regexp.MustCompile(`‹([^›]*)›`)
+
+// mbDeclNames: normalised names of the functions, methods and struct fields a
+// library declares.
+func mbDeclNames(l *mbLib) map[string]bool {
+	out := map[string]bool{}
+	norm := func(s string) string { return strings.Trim(mbNameTok(s), "‹›") }
+	for fn := range l.decls {
+		out[norm(fn.Name())] = true
+	}
+	sc := l.pkg.Types.Scope()
+	for _, nm := range sc.Names() {
+		if tn, ok := sc.Lookup(nm).(*types.TypeName); ok {
+			if st, ok := tn.Type().Underlying().(*types.Struct); ok {
+				for i := 0; i < st.NumFields(); i++ {
+					out[norm(st.Field(i).Name())] = true
+				}
+			}
+		}
+	}
+	return out
+}
+
+// same: the canonical forms a (VM library) and b (interpreter library) are
+// equal modulo a consistent one-to-one pairing of library-internal names. Two
+// different names may be paired only when neither has a namesake in the other
+// library (then they are two names for the twin of the same thing — a helper
+// that is exported in one library and unexported in the other, a helper or
+// field renamed in one library); a name with a namesake pairs with it only.
+// The pairing is global for the rule run: a helper swapped for another one at
+// one site contradicts the pairing established elsewhere (or its namesake).
+func (t *mbTwinCtx) same(a, b string) bool {
+	if t.pairVM == nil {
+		t.pairVM, t.pairIn = map[string]string{}, map[string]string{}
+		t.declVM, t.declIn = mbDeclNames(t.vm), mbDeclNames(t.in)
+	}
+	if mbTokRe.ReplaceAllString(a, "‹›") != mbTokRe.ReplaceAllString(b, "‹›") {
+		return false
+	}
+	ta, tb := mbTokRe.FindAllStringSubmatch(a, -1), mbTokRe.FindAllStringSubmatch(b, -1)
+	if len(ta) != len(tb) {
+		return false
+	}
+	newVM, newIn := map[string]string{}, map[string]string{}
+	for i := range ta {
+		x, y := ta[i][1], tb[i][1]
+		px, okx := t.pairVM[x]
+		if !okx {
+			px, okx = newVM[x]
+		}
+		py, oky := t.pairIn[y]
+		if !oky {
+			py, oky = newIn[y]
+		}
+		switch {
+		case okx || oky:
+			if !(okx && oky && px == y && py == x) {
+				return false
+			}
+		case x == y:
+			newVM[x], newIn[y] = y, x
+		case t.declIn[x] || t.declVM[y]:
+			return false
+		default:
+			newVM[x], newIn[y] = y, x
+		}
+	}
+	for k, v := range newVM {
+		t.pairVM[k] = v
+	}
+	for k, v := range newIn {
+		t.pairIn[k] = v
+	}
+	return true
 }
 
 func (t *mbTwinCtx) add(key string, pos string, st Status, nontrivial bool, detail string) {
@@ -192,7 +273,7 @@ func (t *mbTwinCtx) castMatrix() {
 			continue
 		}
 		if !t.bothLive(implOfKind[vt[0]]) {
-			if a.label != b.label {
+			if !t.same(a.label, b.label) {
 				deadRows[vt[0]]++
 			} else if _, ok := deadRows[vt[0]]; !ok {
 				deadRows[vt[0]] = 0
@@ -208,7 +289,7 @@ func (t *mbTwinCtx) castMatrix() {
 				wrapBad[tag] = append(wrapBad[tag], k)
 			}
 		}
-		if a.label == b.label {
+		if t.same(a.label, b.label) {
 			t.add("cast|"+k, vpos, Discharged, a.label != "error", "both twins: "+a.label)
 			continue
 		}
@@ -406,14 +487,30 @@ func (t *mbTwinCtx) castErrClass(cf *mbCastFn, m map[string]*mbCastCell, engineR
 					return true
 				}
 				be, ok := ast.Unparen(ifs.Cond).(*ast.BinaryExpr)
-				if !ok || be.Op != token.NEQ {
+				if !ok || (be.Op != token.NEQ && be.Op != token.EQL) {
 					return true
 				}
-				id, ok := ast.Unparen(be.X).(*ast.Ident)
-				if !ok || info.Uses[id] != errObj || ifs.Pos() < call.Pos() {
+				// `err != nil` / `nil != err` (error branch = body) or
+				// `err == nil … else` (error branch = else); the test follows the
+				// call (which may sit in the if's own init statement)
+				var id *ast.Ident
+				if x, ok := ast.Unparen(be.X).(*ast.Ident); ok && mbIsNil(info, be.Y) {
+					id = x
+				} else if y, ok := ast.Unparen(be.Y).(*ast.Ident); ok && mbIsNil(info, be.X) {
+					id = y
+				}
+				if id == nil || info.Uses[id] != errObj || ifs.Cond.Pos() < call.Pos() {
 					return true
 				}
-				for _, bs := range ifs.Body.List {
+				branch := ifs.Body.List
+				if be.Op == token.EQL {
+					eb, ok := ifs.Else.(*ast.BlockStmt)
+					if !ok {
+						return true
+					}
+					branch = eb.List
+				}
+				for _, bs := range branch {
 					if IsPanicCall(info, bs) {
 						cls = "host-panic"
 					}
@@ -601,63 +698,92 @@ func (jf *mbJSONFn) caseKey(cc *ast.CaseClause) string {
 	return strings.Join(ks, ",")
 }
 
-// rows: clause key -> canonical outcome set
-func (jf *mbJSONFn) marshalRows() (rows map[string]string, pos map[string]token.Pos, nilContainers []string) {
+// rows: clause key -> canonical outcome table. The marshal function is executed
+// symbolically (rules_members_sym.go) with "no callee raised an interrupt"
+// assumed (the twins differ in how interrupts travel); a row is read off for
+// `self is <type of the clause>`: the returned (value, skip) pairs / panics with
+// the boolean function of the conditions, loops summarised by what an
+// iteration does. Helpers (a field loop shared by two clauses, …) are executed,
+// so a row does not depend on where the loop is written.
+func (jf *mbJSONFn) marshalRows() (rows map[string]string, pos map[string]token.Pos, nilContainers []string, bad string) {
 	rows, pos = map[string]string{}, map[string]token.Pos{}
 	info := jf.l.info
 	nres := 0
 	if fn, ok := info.Defs[jf.fd.Name].(*types.Func); ok {
 		nres = fn.Type().(*types.Signature).Results().Len()
 	}
+	outs, reg, inc := mbSymExec(jf.l, jf.norm, jf.fd.Body.List, true)
+	if inc != "" {
+		return nil, nil, nil, "marshal function not executable symbolically: " + inc
+	}
+	subj := reg.mainSubject()
+	keyOf := func(o *mbSymOut) string {
+		switch o.kind {
+		case "panic":
+			return "PANIC"
+		case "fall":
+			return "?falls off the end"
+		}
+		if len(o.vals) == 1 {
+			return o.vals[0]
+		}
+		if len(o.vals) != nres {
+			return "?" + strings.Join(o.vals, ",")
+		}
+		// last result an interrupt (interp): an interrupt built here is named by its class
+		if nres == 3 && o.vals[2] != "nil" {
+			if len(o.exprs) == 3 && o.norm != nil && o.norm.l != nil {
+				if cls := o.norm.l.errClass(o.exprs[2]); cls != "" {
+					return "error:" + mbTwin(cls)
+				}
+			}
+			return "" // propagated from a callee: that callee's business
+		}
+		return "out=" + o.vals[0] + " skip=" + o.vals[1]
+	}
+	seenNil := map[string]bool{}
 	for _, c := range jf.sw.Body.List {
 		cc := c.(*ast.CaseClause)
-		set := map[string]bool{}
-		mbVisitStmts(cc.Body, nil, func(s ast.Stmt, stack []mbCondCtx) {
-			switch x := s.(type) {
-			case *ast.ExprStmt:
-				if IsPanicCall(info, x) {
-					set["PANIC"] = true
+		key := jf.caseKey(cc)
+		var parts []string
+		labels := []string{""}
+		if cc.List != nil {
+			labels = strings.Split(key, ",")
+		}
+		for _, lb := range labels {
+			sel := mbSymRestrict(outs, reg.selecting(subj, lb))
+			parts = append(parts, mbSymTable(sel, keyOf))
+			// nil containers
+			for i := range sel {
+				o := &sel[i]
+				if o.kind != "return" || len(o.exprs) < 2 || o.norm == nil {
+					continue
 				}
-			case *ast.ReturnStmt:
-				if len(x.Results) == 1 {
-					set[jf.norm.str(x.Results[0])] = true
-					return
+				id, ok := ast.Unparen(o.exprs[0]).(*ast.Ident)
+				if !ok {
+					continue
 				}
-				if len(x.Results) != nres {
-					return
+				ob := o.norm.info.Uses[id]
+				if ob == nil {
+					continue
 				}
-				// last result an interrupt? (interp): skip error returns, note the class
-				if nres == 3 {
-					if !mbIsNil(info, x.Results[2]) {
-						if cls := jf.l.errClass(x.Results[2]); cls != "" {
-							set["error:"+mbTwin(cls)] = true
-						}
-						return
-					}
-				}
-				out := jf.norm.str(x.Results[0])
-				// guard of an early return inside a loop matters (nil field)
-				g := jf.norm.guardStr(stack)
-				if g != "" {
-					out += " if " + g
-				}
-				set["out="+out+" skip="+jf.norm.str(x.Results[1])] = true
-				// nil containers
-				if id, ok := ast.Unparen(x.Results[0]).(*ast.Ident); ok {
-					o := info.Uses[id]
-					switch o.Type().Underlying().(type) {
-					case *types.Slice, *types.Map:
-						for _, d := range jf.norm.defs[o] {
-							if d.zero {
-								nilContainers = append(nilContainers, fmt.Sprintf("case %s: `%s` is declared without initialiser (nil) and handed to encoding/json: an empty container marshals as null", jf.caseKey(cc), id.Name))
+				switch ob.Type().Underlying().(type) {
+				case *types.Slice, *types.Map:
+					for _, d := range o.norm.defs[ob] {
+						if d.zero {
+							msg := fmt.Sprintf("case %s: `%s` is declared without initialiser (nil) and handed to encoding/json: an empty container marshals as null", key, id.Name)
+							if !seenNil[msg] {
+								seenNil[msg] = true
+								nilContainers = append(nilContainers, msg)
 							}
 						}
 					}
 				}
 			}
-		})
-		rows[jf.caseKey(cc)] = strings.Join(mbSortedKeys(set), " || ")
-		pos[jf.caseKey(cc)] = cc.Pos()
+		}
+		parts = mbUniq(parts)
+		rows[key] = strings.Join(parts, " // ")
+		pos[key] = cc.Pos()
 	}
 	return
 }
@@ -671,7 +797,70 @@ func mbSortedKeys(m map[string]bool) []string {
 	return out
 }
 
+// unmarshalRows: Go JSON type -> set of value kinds built (and interrupt
+// classes raised) for it. The function is executed symbolically with "no callee
+// raised an interrupt" and the outcomes are read off per `self is <type>`, so
+// a clause body moved into a helper reads like the inline clause.
 func (jf *mbJSONFn) unmarshalRows() (rows map[string]string, pos map[string]token.Pos) {
+	rows, pos = map[string]string{}, map[string]token.Pos{}
+	outs, reg, inc := mbSymExec(jf.l, jf.norm, jf.fd.Body.List, true)
+	if inc != "" {
+		return jf.unmarshalRowsAST()
+	}
+	subj := reg.mainSubject()
+	for _, c := range jf.sw.Body.List {
+		cc := c.(*ast.CaseClause)
+		key := jf.caseKey(cc)
+		labels := []string{""}
+		if cc.List != nil {
+			labels = strings.Split(key, ",")
+		}
+		set := map[string]bool{}
+		for _, lb := range labels {
+			for _, o := range mbSymRestrict(outs, reg.selecting(subj, lb)) {
+				if !mbSatB(o.cond) {
+					continue
+				}
+				switch o.kind {
+				case "panic":
+					set["PANIC"] = true
+					continue
+				case "fall":
+					continue
+				}
+				if len(o.exprs) == 0 || o.norm == nil || o.norm.l == nil {
+					set["?"+strings.Join(o.vals, ",")] = true
+					continue
+				}
+				lib := o.norm.l
+				if len(o.exprs) == 2 && o.vals[0] == "nil" {
+					if cls := lib.errClass(o.exprs[1]); cls != "" {
+						set["error:"+mbTwin(cls)] = true
+					}
+					continue
+				}
+				if cc := lib.valueOfCall(o.exprs[0]); cc != nil {
+					k := mbShortKind(cc.impl.KindName())
+					if cc.none {
+						k += "(none)"
+					}
+					set[k] = true
+					continue
+				}
+				if call, ok := ast.Unparen(o.exprs[0]).(*ast.CallExpr); ok && CalleeOf(lib.info, call) == o.norm.selfFn && len(o.exprs) == 1 {
+					set["rec"] = true // the result of the recursive call passed on
+					continue
+				}
+				set["?"+o.vals[0]] = true
+			}
+		}
+		rows[key] = strings.Join(mbSortedKeys(set), ",")
+		pos[key] = cc.Pos()
+	}
+	return
+}
+
+func (jf *mbJSONFn) unmarshalRowsAST() (rows map[string]string, pos map[string]token.Pos) {
 	rows, pos = map[string]string{}, map[string]token.Pos{}
 	info := jf.l.info
 	for _, c := range jf.sw.Body.List {
@@ -716,8 +905,11 @@ func (t *mbTwinCtx) jsonTables() {
 	if vm == nil || in == nil {
 		t.add("json|marshal", "?", Undecided, false, "marshal function (Value -> interface{} with a type switch) not found in one of the libraries")
 	} else {
-		vr, vpos, vnil := vm.marshalRows()
-		ir, ipos, inil := in.marshalRows()
+		vr, vpos, vnil, vbad := vm.marshalRows()
+		ir, ipos, inil, ibad := in.marshalRows()
+		if vbad != "" || ibad != "" {
+			t.add("json|marshal", t.c.Pos(vm.fd.Pos()), Undecided, false, "vm: "+vbad+"; interp: "+ibad)
+		}
 		for _, k := range mbUnionKeys(vr, ir) {
 			a, aok := vr[k]
 			b, bok := ir[k]
@@ -729,7 +921,7 @@ func (t *mbTwinCtx) jsonTables() {
 			switch {
 			case !aok || !bok:
 				t.add("json|marshal|"+k, pos, Violated, true, fmt.Sprintf("marshal case exists in one twin only: vm=%q interp=%q", a, b))
-			case a == b:
+			case t.same(a, b):
 				t.add("json|marshal|"+k, pos, Discharged, true, "both twins: "+a)
 			case k != "default" && k != "nil" && !t.bothLive(impl) && t.vm.byType[mbLookupType(t.vm, impl)] != nil:
 				t.add("json|marshal|"+k, pos, Info, false, fmt.Sprintf("vm=%s / interp=%s — %s", a, b, t.liveNote(impl)))
@@ -769,7 +961,7 @@ func (t *mbTwinCtx) jsonTables() {
 	ir, ipos := iu.unmarshalRows()
 	for _, k := range mbUnionKeys(vr, ir) {
 		a, b := vr[k], ir[k]
-		if a == b {
+		if t.same(a, b) {
 			t.add("json|unmarshal|"+k, t.c.Pos(vpos[k]), Discharged, true, fmt.Sprintf("JSON %s -> %s in both twins", k, a))
 		} else {
 			t.add("json|unmarshal|"+k, t.c.Pos(vpos[k]), Violated, true, fmt.Sprintf("JSON unmarshal table differs for Go type %s: vm (%s) -> %s; interp (%s) -> %s", k, t.c.Pos(vpos[k]), a, t.c.Pos(ipos[k]), b))
@@ -824,28 +1016,36 @@ func mbUnionKeys(a, b map[string]string) []string {
 // Display
 // ---------------------------------------------------------------------------
 
+// displayForm: the texts Display returns on its normal paths, with the
+// conditions under which each is returned (symbolic execution with "no callee
+// raised an interrupt": the error plumbing of the twins is not part of the
+// format). Loops over the elements are summarised by what an iteration adds.
 func (t *mbTwinCtx) displayForm(im *mbImpl) (string, token.Pos, bool) {
 	fd := im.methods["Display"]
 	if fd == nil {
 		return "", token.NoPos, false
 	}
 	n := mbNewNorm(im.lib, fd)
-	set := map[string]bool{}
-	mbVisitStmts(fd.Body.List, nil, func(s ast.Stmt, stack []mbCondCtx) {
-		switch x := s.(type) {
-		case *ast.ReturnStmt:
-			if len(x.Results) == 2 && mbIsNil(im.lib.info, x.Results[1]) {
-				pre := ""
-				for _, g := range stack {
-					if g.clause != nil && g.clause.List != nil {
-						pre += "[case " + n.str(g.clause.List[0]) + "] "
-					}
-				}
-				set[pre+n.str(x.Results[0])] = true
+	outs, _, inc := mbSymExec(im.lib, n, fd.Body.List, true)
+	if inc != "" {
+		return "?not executable symbolically (" + inc + ") in " + im.lib.tag, fd.Pos(), true
+	}
+	form := mbSymTable(outs, func(o *mbSymOut) string {
+		switch o.kind {
+		case "panic":
+			return "PANIC"
+		case "return":
+			if len(o.vals) == 2 && o.vals[1] == "nil" {
+				return o.vals[0]
 			}
+			if len(o.vals) == 1 {
+				return o.vals[0]
+			}
+			return "" // an interrupt built / passed on: not part of the format
 		}
+		return "?falls off the end"
 	})
-	return strings.Join(mbSortedKeys(set), " || "), fd.Pos(), true
+	return form, fd.Pos(), true
 }
 
 func (t *mbTwinCtx) displayTables() {
@@ -862,7 +1062,7 @@ func (t *mbTwinCtx) displayTables() {
 			continue
 		}
 		switch {
-		case a == b:
+		case t.same(a, b):
 			t.add("display|"+vi.Name(), t.c.Pos(apos), Discharged, true, "both twins: "+a)
 		case !t.bothLive(vi.Name()):
 			t.add("display|"+vi.Name(), t.c.Pos(bpos), Info, false, fmt.Sprintf("vm=%s / interp=%s — %s", a, b, t.liveNote(vi.Name())))
@@ -881,38 +1081,27 @@ func (t *mbTwinCtx) displayTables() {
 // IsEqual
 // ---------------------------------------------------------------------------
 
-// returnForms: canonical set of (enclosing conditions -> returned value) of
-// the normal returns of a method with results (T, *interrupt).
+// returnForms: the outcomes of a method with results (T, *interrupt) as a
+// canonical table (symbolic execution, rules_members_sym.go): returned values
+// with the boolean function of the conditions under which each is returned; a
+// returned boolean expression counts as `true` under it and `false` otherwise,
+// so early returns and a single && / || expression read alike.
 func mbReturnForms(l *mbLib, fd *ast.FuncDecl) string {
 	n := mbNewNorm(l, fd)
-	set := map[string]bool{}
-	mbVisitStmts(fd.Body.List, nil, func(s ast.Stmt, stack []mbCondCtx) {
-		r, ok := s.(*ast.ReturnStmt)
-		if !ok || len(r.Results) == 0 {
-			return
+	outs, _, inc := mbSymExec(l, n, fd.Body.List, false)
+	if inc != "" {
+		return "?not executable symbolically (" + inc + ") in " + l.tag
+	}
+	outs = mbSymSplitBool(outs, 0)
+	return mbSymTable(outs, func(o *mbSymOut) string {
+		switch o.kind {
+		case "panic":
+			return "PANIC"
+		case "return":
+			return strings.Join(o.vals, ", ")
 		}
-		var conds []string
-		for _, g := range stack {
-			switch {
-			case g.cond != nil:
-				conds = append(conds, n.strB(g.cond, 0, g.neg))
-			case g.loop != nil:
-				conds = append(conds, "loop")
-			case g.clause != nil && g.clause.List != nil:
-				conds = append(conds, "case "+n.str(g.clause.List[0]))
-			}
-		}
-		pre := ""
-		if len(conds) > 0 {
-			pre = "[" + strings.Join(conds, " && ") + "] "
-		}
-		var rs []string
-		for _, res := range r.Results {
-			rs = append(rs, n.str(res))
-		}
-		set[pre+strings.Join(rs, ", ")] = true
+		return "?falls off the end"
 	})
-	return strings.Join(mbSortedKeys(set), " || ")
 }
 
 func (t *mbTwinCtx) isEqualTables() {
@@ -924,7 +1113,7 @@ func (t *mbTwinCtx) isEqualTables() {
 		a, b := mbReturnForms(t.vm, vi.methods["IsEqual"]), mbReturnForms(t.in, ii.methods["IsEqual"])
 		pos := t.c.Pos(ii.methods["IsEqual"].Pos())
 		switch {
-		case a == b:
+		case t.same(a, b):
 			t.add("isequal|"+vi.Name(), pos, Discharged, true, "both twins: "+a)
 		case !t.bothLive(vi.Name()):
 			t.add("isequal|"+vi.Name(), pos, Info, false, fmt.Sprintf("vm=%s / interp=%s — %s", a, b, t.liveNote(vi.Name())))
@@ -938,7 +1127,15 @@ func (t *mbTwinCtx) isEqualTables() {
 // index guards
 // ---------------------------------------------------------------------------
 
-func (t *mbTwinCtx) indexRows(l *mbLib) (map[string]string, map[string]token.Pos, token.Pos) {
+// indexRows: IndexValue as a table base kind -> outcomes. The function body is
+// executed symbolically (rules_members_sym.go): a row is the set of outcomes
+// (returned values / panic) with the boolean function of the conditions under
+// which each is reached, read off for `<base>.Kind() == K`. Helpers are
+// executed, locals substituted, so the row does not depend on whether the
+// negative-index wrap or the bounds test is written inline, in a helper, as an
+// if-chain or with early returns. Kinds that one `case` lists together (in
+// either twin) share a row key.
+func (t *mbTwinCtx) indexRows(l *mbLib) (rows map[string]string, pos map[string]token.Pos, groups [][]string, fpos token.Pos, bad string) {
 	var fd *ast.FuncDecl
 	for fn, d := range l.decls {
 		if fn.Name() == "IndexValue" && d.Recv == nil {
@@ -946,92 +1143,129 @@ func (t *mbTwinCtx) indexRows(l *mbLib) (map[string]string, map[string]token.Pos
 		}
 	}
 	if fd == nil {
-		return nil, nil, token.NoPos
+		return nil, nil, nil, token.NoPos, "IndexValue not found"
 	}
 	n := mbNewNorm(l, fd)
-	rows, pos := map[string]string{}, map[string]token.Pos{}
-	var sw *ast.SwitchStmt
-	for _, s := range fd.Body.List {
-		if x, ok := s.(*ast.SwitchStmt); ok {
-			sw = x
+	outs, reg, inc := mbSymExec(l, n, fd.Body.List, false)
+	if inc != "" {
+		return nil, nil, nil, fd.Pos(), "IndexValue not executable symbolically: " + inc
+	}
+	subj := reg.mainSubject()
+	labels := reg.labelsOf(subj)
+	if len(labels) < 2 {
+		return nil, nil, nil, fd.Pos(), "no dispatch on the base value's kind found in IndexValue"
+	}
+	rows, pos = map[string]string{}, map[string]token.Pos{}
+	keyOf := func(o *mbSymOut) string {
+		switch o.kind {
+		case "panic":
+			return "PANIC"
+		case "return":
+			return "return " + strings.Join(o.vals, ",")
 		}
+		return "?falls off the end"
 	}
-	if sw == nil {
-		return nil, nil, fd.Pos()
+	for _, k := range labels {
+		rows[mbShortKind(k)] = mbSymTable(mbSymRestrict(outs, reg.selecting(subj, k)), keyOf)
+		pos[mbShortKind(k)] = fd.Pos()
 	}
-	for _, c := range sw.Body.List {
-		cc := c.(*ast.CaseClause)
+	rows["otherwise"] = mbSymTable(mbSymRestrict(outs, reg.selecting(subj, "")), keyOf)
+	pos["otherwise"] = fd.Body.List[len(fd.Body.List)-1].Pos()
+	// positions and grouping hints from the clauses that name the kinds
+	ast.Inspect(fd.Body, func(nd ast.Node) bool {
+		cc, ok := nd.(*ast.CaseClause)
+		if !ok {
+			return true
+		}
 		var ks []string
 		for _, v := range cc.List {
-			ks = append(ks, mbShortKind(n.str(v)))
-		}
-		sort.Strings(ks)
-		key := strings.Join(ks, ",")
-		if cc.List == nil {
-			key = "default"
-		}
-		var steps []string
-		for _, s := range cc.Body {
-			switch x := s.(type) {
-			case *ast.IfStmt:
-				act := ""
-				for _, bs := range x.Body.List {
-					switch y := bs.(type) {
-					case *ast.ReturnStmt:
-						var rs []string
-						for _, r := range y.Results {
-							rs = append(rs, n.str(r))
-						}
-						act += "return " + strings.Join(rs, ",")
-					case *ast.AssignStmt:
-						act += "x' = " + n.strRaw(y.Rhs[0])
-					}
+			if k := ConstOf(l.info, v); k != nil {
+				if _, isRow := rows[mbShortKind(mbTwin(k.Name()))]; isRow {
+					ks = append(ks, mbShortKind(mbTwin(k.Name())))
+					pos[mbShortKind(mbTwin(k.Name()))] = cc.Pos()
 				}
-				steps = append(steps, "if "+n.strB(x.Cond, 0, false)+" { "+act+" }")
-			case *ast.ReturnStmt:
-				var rs []string
-				for _, r := range x.Results {
-					rs = append(rs, n.strRaw(r))
-				}
-				steps = append(steps, "return "+strings.Join(rs, ","))
 			}
 		}
-		rows[key] = strings.Join(steps, "; ")
-		pos[key] = cc.Pos()
-	}
-	// what follows the switch
-	last := fd.Body.List[len(fd.Body.List)-1]
-	if IsPanicCall(l.info, last) {
-		rows["otherwise"] = "PANIC"
-	} else {
-		rows["otherwise"] = "?"
-	}
-	pos["otherwise"] = last.Pos()
-	return rows, pos, fd.Pos()
+		if len(ks) > 1 {
+			sort.Strings(ks)
+			groups = append(groups, ks)
+		}
+		return true
+	})
+	return rows, pos, groups, fd.Pos(), ""
 }
 
-// strRaw: like str but a local that is re-assigned (index wrapping) is named
-// by its first definition only, so guards before and after the wrap read alike.
-func (n *mbNorm) strRaw(e ast.Expr) string {
-	s := n.str(e)
-	return s
+// mbGroupRows merges the rows of labels that a clause lists together, when
+// their rows are equal in both tables; the merged key is the sorted list.
+func mbGroupRows(groups [][]string, tabs ...map[string]string) map[string][]string {
+	out := map[string][]string{}
+	used := map[string]bool{}
+	for _, g := range groups {
+		same := true
+		for _, tab := range tabs {
+			for _, k := range g[1:] {
+				if tab[k] != tab[g[0]] {
+					same = false
+				}
+			}
+		}
+		for _, k := range g {
+			if used[k] {
+				same = false
+			}
+		}
+		if !same {
+			continue
+		}
+		for _, k := range g {
+			used[k] = true
+		}
+		out[strings.Join(g, ",")] = g
+	}
+	for _, tab := range tabs {
+		for k := range tab {
+			if !used[k] {
+				out[k] = []string{k}
+			}
+		}
+	}
+	return out
 }
 
 func (t *mbTwinCtx) indexGuards() {
-	vr, vpos, vfd := t.indexRows(t.vm)
-	ir, ipos, _ := t.indexRows(t.in)
+	vr, vpos, vg, vfd, vbad := t.indexRows(t.vm)
+	ir, ipos, ig, _, ibad := t.indexRows(t.in)
 	if vr == nil || ir == nil {
-		t.add("index|IndexValue", t.c.Pos(vfd), Undecided, false, "IndexValue or its kind switch not found in one of the libraries")
+		t.add("index|IndexValue", t.c.Pos(vfd), Undecided, false, "IndexValue table not extractable: vm: "+vbad+"; interp: "+ibad)
 		return
 	}
-	for _, k := range mbUnionKeys(vr, ir) {
-		a, b := vr[k], ir[k]
-		if a == b {
-			t.add("index|"+k, t.c.Pos(vpos[k]), Discharged, true, "both twins: "+a)
-		} else {
-			t.add("index|"+k, t.c.Pos(ipos[k]), Violated, true, fmt.Sprintf("index guards differ for base kind %s: vm (%s) = %s; interp (%s) = %s", k, t.c.Pos(vpos[k]), a, t.c.Pos(ipos[k]), b))
+	groups := mbGroupRows(append(vg, ig...), vr, ir)
+	for _, key := range mbSortedKeysOf(groups) {
+		k := groups[key][0]
+		a, aok := vr[k]
+		b, bok := ir[k]
+		switch {
+		case aok && bok && t.same(a, b):
+			t.add("index|"+key, t.c.Pos(vpos[k]), Discharged, true, "both twins: "+a)
+		case !aok || !bok:
+			p := vpos[k]
+			if !aok {
+				p = ipos[k]
+			}
+			t.add("index|"+key, t.c.Pos(p), Violated, true, fmt.Sprintf("base kind %s is dispatched on in one twin only: vm=%q interp=%q", key, a, b))
+		default:
+			t.add("index|"+key, t.c.Pos(ipos[k]), Violated, true, fmt.Sprintf("index guards differ for base kind %s: vm (%s) = %s; interp (%s) = %s", key, t.c.Pos(vpos[k]), a, t.c.Pos(ipos[k]), b))
 		}
 	}
+}
+
+func mbSortedKeysOf(m map[string][]string) []string {
+	var out []string
+	for k := range m {
+		out = append(out, k)
+	}
+	sort.Strings(out)
+	return out
 }
 
 // ---------------------------------------------------------------------------
@@ -1084,9 +1318,9 @@ func (t *mbTwinCtx) memberTwins() {
 				continue
 			}
 			if vfl == nil {
-				a, b := mbNewNorm(t.vm, vi.methods["Fields"]).str(ve[0].val), mbNewNorm(t.in, ii.methods["Fields"]).str(ie[0].val)
+				a, b := mbNewNorm(t.vm, ve[0].enc).str(ve[0].val), mbNewNorm(t.in, ie[0].enc).str(ie[0].val)
 				st := Discharged
-				if a != b {
+				if !t.same(a, b) {
 					st = Violated
 				}
 				t.add(key+"|value", t.c.Pos(ie[0].pos), st, false, fmt.Sprintf("vm=%s interp=%s", a, b))
@@ -1104,6 +1338,11 @@ func (t *mbTwinCtx) memberTwins() {
 				return strings.Join(mbSortedKeys(s), ",")
 			}
 			a, b := cls(vc), cls(ic)
+			ga, ca, oka := mbClosureErrorPaths(t.vm, ve[0].enc, ve[0].val, vfl)
+			gb, cb, okb := mbClosureErrorPaths(t.in, ie[0].enc, ie[0].val, ifl)
+			if oka && okb {
+				a, b = ca, cb // classes read off the executed paths (helpers included)
+			}
 			st := Discharged
 			if a != b {
 				st = Violated
@@ -1112,10 +1351,9 @@ func (t *mbTwinCtx) memberTwins() {
 				t.add(key+"|error class", t.c.Pos(ifl.Pos()), st, true, fmt.Sprintf("interrupt classes raised by the builtin's own error paths: vm={%s} interp={%s}", a, b))
 			}
 			// guards in front of the builtin's error exits (helpers inlined, negations normalised)
-			ga, gb := mbClosureGuards(t.vm, vi.methods["Fields"], ve[0].val, vfl), mbClosureGuards(t.in, ii.methods["Fields"], ie[0].val, ifl)
 			if ga != "" || gb != "" {
 				st = Discharged
-				if ga != gb {
+				if !t.same(ga, gb) {
 					st = Violated
 				}
 				t.add(key+"|guards", t.c.Pos(ifl.Pos()), st, true, fmt.Sprintf("conditions under which the builtin raises an interrupt or panics: vm={%s} interp={%s}", ga, gb))
@@ -1162,6 +1400,47 @@ func (t *mbTwinCtx) memberTwins() {
 // mbClosureGuards: canonical set of the conditions that lead a builtin closure
 // to an error return or a panic.
 func mbClosureGuards(l *mbLib, enc *ast.FuncDecl, entry ast.Expr, lit *ast.FuncLit) string {
+	g, _, _ := mbClosureErrorPaths(l, enc, entry, lit)
+	return g
+}
+
+// mbClosureErrorPaths: the builtin closure executed symbolically ("no callee
+// raised an interrupt"; helpers of the library are executed, so a guard that
+// lives in `checkCount(n, span) *Interrupt` reads like the inline test): the
+// boolean function of the conditions under which the closure itself raises an
+// interrupt or panics, and the classes of the interrupts it raises.
+func mbClosureErrorPaths(l *mbLib, enc *ast.FuncDecl, entry ast.Expr, lit *ast.FuncLit) (guards string, classes string, ok bool) {
+	// a closure obtained through a helper is normalised in the helper's context
+	encFd := enc
+	if call, isCall := ast.Unparen(entry).(*ast.CallExpr); isCall {
+		if fd := l.decls[CalleeOf(l.info, call)]; fd != nil && fd.Pos() <= lit.Pos() && lit.End() <= fd.End() {
+			encFd = fd
+		}
+	}
+	n := mbNewNormLit(l, encFd, lit)
+	outs, _, inc := mbSymExec(l, n, lit.Body.List, true)
+	if inc != "" {
+		return mbClosureGuardsAST(l, enc, entry, lit), "", false
+	}
+	cls := map[string]bool{}
+	guards = mbSymTable(outs, func(o *mbSymOut) string {
+		switch o.kind {
+		case "panic":
+			return "PANIC"
+		case "return":
+			if len(o.vals) == 2 && o.vals[0] == "nil" && strings.HasPrefix(o.vals[1], "error:") {
+				if mbSatB(o.cond) {
+					cls[strings.TrimPrefix(o.vals[1], "error:")] = true
+				}
+				return "error"
+			}
+		}
+		return ""
+	})
+	return guards, strings.Join(mbSortedKeys(cls), ","), true
+}
+
+func mbClosureGuardsAST(l *mbLib, enc *ast.FuncDecl, entry ast.Expr, lit *ast.FuncLit) string {
 	// a closure obtained through a helper is normalised in the helper's context
 	encFd := enc
 	if call, ok := ast.Unparen(entry).(*ast.CallExpr); ok {
